@@ -9,6 +9,7 @@ from ..common import COSTS, DISTANCES, EPS, ORDERS, cost, distance, order, pick,
 LD = np.longdouble
 
 META = {
+    'refill': True,      # cases presented in a reused buffer are followed by a refill of that buffer (runner)
     'rule': ('history = per curve and metric, 6-40 breakpoint sets (random subsets, the rdp_fixed chain, supersets/subsets '
              'sharing segments, all points, end points only) evaluated in random order against ONE shared cache; every call of '
              'compute_global_cost (also the internal ones made by grdp/mp_grdp) is (i) compared with an independent long-double '
